@@ -129,9 +129,17 @@ def run_case(grid, specs):
     present = [[] for _ in specs]
     trigs = []
 
+    holder = {}
+    chained_at = {}
+
     def mk_do(i):
         def do(snapshot, **kw):
             fired[i].append((snapshot.timestamp, dict(kw)))
+            # a trigger's action may itself register a follow-up trigger (first firing only)
+            for k, sk in enumerate(specs):
+                if sk.get("register_by") == i and trigs[k] is None:
+                    chained_at[k] = snapshot.row_id
+                    register(holder["strategy"], k)
         return do
 
     trigs.extend([None] * len(specs))
@@ -142,8 +150,9 @@ def run_case(grid, specs):
         strategy.triggers.append(t)
 
     def init(strategy, _):
+        holder["strategy"] = strategy
         for i, s in enumerate(specs):
-            if s.get("register_at") is None:
+            if s.get("register_at") is None and s.get("register_by") is None:
                 register(strategy, i)
 
     def late(strategy, snapshot):
@@ -164,6 +173,7 @@ def run_case(grid, specs):
     except Exception as e:  # the loop must not fail because of a time trigger
         err = f"{type(e).__name__}: {e}"
     bars = [t[2] for t in st.trace if t[0] == "before_bar"]
+    run_case.chained_at = dict(chained_at)
     return bars, fired, present, err
 
 
@@ -177,9 +187,30 @@ def judge(part: Part, grid, specs):
         return
     for i, s in enumerate(specs):
         part.count("trigger_evaluations")
-        want = denote(s, bars if s.get("register_at") is None else bars[s["register_at"] + 1:])
+        if s.get("register_by") is not None:
+            # registered by another trigger's action during the trigger phase of a bar: that bar is still being served, it belongs to what the new
+            # trigger denotes (a trigger that is due right now must not be retired unfired)
+            at = run_case.chained_at.get(i)
+            if at is None:
+                part.count("chained_trigger_never_registered")
+                continue
+            window = bars[at:]
+        else:
+            window = bars if s.get("register_at") is None else bars[s["register_at"] + 1:]
+        want = denote(s, window)
         got_list = [t for t, _ in fired[i]]
         got = set(got_list)
+        if s.get("unaligned"):
+            # a period that is not a multiple of the bar interval: what it denotes between its landings is not fixed by the statement; the ALIGNED periods
+            # of the same trigger must fire independently of it (lower bound), and nothing may fire outside the union of all landings (upper bound)
+            aligned = dict(s, deltas=[d for d in s["deltas"] if d not in s["unaligned"]])
+            low = denote(aligned, window)
+            part.count("unaligned_period_cases")
+            if not low <= got or not got <= want:
+                part.violation(f"C18|{s['kind']}|unaligned|bars", "with one period that does not fall on the bar grid, the other periods of the trigger must still fire on "
+                               "their own bars (and nothing outside the union of all periods' landings)", case,
+                               {"trigger": i, "missing": sorted(low - got), "extra": sorted(got - want), "bars": bars})
+            continue
         tag = s["kind"] + ("" if len(specs) == 1 else "|paired")
         if want:
             part.count("nontrivial")
@@ -292,6 +323,21 @@ def cases_for(grid, thorough):
             if reg + 1 < n:
                 out.append([dict(early), dict(late_spec, register_at=reg)])
                 out.append([dict(late_spec, register_at=reg)])
+    # a follow-up trigger registered by another trigger's action (chained registration)
+    for first in ({"kind": "at", "time": bars[1], "kwargs": {"k": 0}}, {"kind": "period", "delta": 2 * s, "pending": timedelta(0), "immediate": True, "kwargs": {"k": 0}}):
+        b_reg = bars[1] if first["kind"] == "at" else bars[0]
+        for follow in ({"kind": "at", "time": b_reg, "kwargs": {"k": 5}},
+                       {"kind": "range", "start": b_reg, "end": b_reg + 3 * s, "kwargs": {"k": 6}},
+                       {"kind": "ats", "times": [b_reg, bars[-1]], "kwargs": {"k": 7}},
+                       {"kind": "period", "delta": s, "pending": timedelta(0), "immediate": True, "kwargs": {"k": 8}},
+                       {"kind": "range", "start": b_reg + s, "end": bars[-1], "kwargs": {"k": 9}}):
+            out.append([dict(first), dict(follow, register_by=0)])
+    # several periods of which one does not fall on the bar grid (1.5 bars): the others are independent of it
+    odd = timedelta(seconds=1.5 * s.total_seconds())
+    if odd.total_seconds() % 60 == 0:
+        for deltas in ([odd, 2 * s], [2 * s, odd], [odd, s, 3 * s]):
+            for p in delays[:2]:
+                out.append([{"kind": "periods", "deltas": deltas, "pending": p, "immediate": False, "kwargs": kw, "unaligned": [odd]}])
     # two triggers at once: one representative of each kind, all ordered pairs
     reps = [
         {"kind": "at", "time": bars[1], "kwargs": {"k": 1}},
